@@ -393,6 +393,25 @@ func runFaulted(c *eng.Ctx, idx int, s *Spec, m *Model, ops []Op, fault rt.Fault
 			fs = append(fs, Finding{"api-call-panics", feat + ":" + phase, fmt.Sprintf("%s: the call panicked: %v", where, res.Panic)})
 			return
 		}
+		// the failure classes are distinguishable: a constructor that failed is not "not found",
+		// "circular", "lifetime conflict" or "already registered" at the same time (nothing of
+		// the kind is wrong with the registration set, the fault is the only failure)
+		if res.Err != nil {
+			for _, cl := range []struct {
+				name string
+				is   bool
+			}{
+				{"not-found", errors.Is(res.Err, godi.ErrServiceNotFound)},
+				{"circular", AsEither[godi.CircularDependencyError](res.Err)},
+				{"lifetime-conflict", AsEither[godi.LifetimeConflictError](res.Err)},
+				{"already-registered", AsEither[godi.AlreadyRegisteredError](res.Err)},
+			} {
+				if cl.is {
+					fs = append(fs, Finding{"failure-classes-not-distinguishable", kindName + ":also-" + cl.name + ":" + phase, fmt.Sprintf("%s: the error of a constructor that was made to %s also classifies as %q with errors.Is/As: %v", where, kindName, cl.name, trimErr(res.Err))})
+					break
+				}
+			}
+		}
 		switch fault.Kind {
 		case rt.FErr:
 			if res.Err == nil {
